@@ -19,6 +19,37 @@ type PrintOpts struct {
 	DropRetAnnot  bool   // drop the result annotation of non-recursive functions (inference recovers it; used by C02)
 	QualifyRecord bool   // write record literals as {Rec.f = …}
 	NoHeader      bool
+	OmitParens    bool // operands of binary operators without parentheses where fc's operator table gives the same grouping
+}
+
+// rank of a binary node in fc's operator table (fc/wrapper.go binOpMap; checked by C08), 0 = not an operator node
+func foRank(e *Expr) int {
+	switch e.K {
+	case EEq, ENeq:
+		return 3
+	case EBin:
+		switch e.Op {
+		case "&&", "||", "<", ">", "<=", ">=":
+			return 2
+		case "+", "-", "sadd":
+			return 4
+		case "*", "/", "%":
+			return 5
+		}
+	}
+	return 0
+}
+
+// operand prints the left (right=false) or right operand of the operator node parent
+func (w *foPrinter) operand(parent, e *Expr, right bool) {
+	if w.o.OmitParens && foRank(e) > 0 && !multiLineKind(e) {
+		// left-associative precedence climbing: the left operand may have the same rank, the right one needs a higher one
+		if !right && foRank(e) >= foRank(parent) || right && foRank(e) > foRank(parent) {
+			w.top_(e)
+			return
+		}
+	}
+	w.atom(e)
 }
 
 type foPrinter struct {
@@ -516,17 +547,17 @@ func (w *foPrinter) top_(e *Expr) {
 		if o, ok := foOps[op]; ok {
 			op = o
 		}
-		w.atom(e.Args[0])
+		w.operand(e, e.Args[0], false)
 		w.s(" " + op + " ")
-		w.atom(e.Args[1])
+		w.operand(e, e.Args[1], true)
 	case EEq, ENeq:
-		w.atom(e.Args[0])
+		w.operand(e, e.Args[0], false)
 		if e.K == EEq {
 			w.s(" = ")
 		} else {
 			w.s(" <> ")
 		}
-		w.atom(e.Args[1])
+		w.operand(e, e.Args[1], true)
 	case ENot:
 		w.s("not ")
 		w.atom(e.Args[0])
